@@ -10,3 +10,4 @@ open Pyrealb.C08Fr
 #print axioms disagree_refl_modal_person
 #print axioms clitic_agree_holds
 #print axioms notations_agree_fr_partial
+#print axioms notations_agree_fr_neg
